@@ -8,14 +8,16 @@ Lines == ndJsonDeserialize(IOEnv.TRACE)
 VARIABLES l, cur, seen
 \* cur: the running case; seen: which events were observed in it
 vars == <<l, cur, seen>>
-NoCase == [id |-> -1, code |-> 0, hasPrimal |-> FALSE, hasDual |-> FALSE, hasObj |-> FALSE]
+\* abort: the backend delivers the code by exception (StdBackend::Abort / MP_RAISE_WITH_CODE) instead of
+\* SetStatus: no classification or solution reporting takes place, but the code written is still the code reported
+NoCase == [id |-> -1, code |-> 0, hasPrimal |-> FALSE, hasDual |-> FALSE, hasObj |-> FALSE, abort |-> FALSE]
 
 E == Lines[l]
 Bad(what) == PrintT(<<"BAD", ToJson([line |-> l, id |-> cur.id, code |-> cur.code, what |-> what])>>)
 Step == l' = l + 1
 
 TCase == /\ E.e = "Case" /\ Step
-         /\ cur' = [id |-> E.id, code |-> E.code, hasPrimal |-> E.hasPrimal, hasDual |-> E.hasDual, hasObj |-> E.hasObj]
+         /\ cur' = [id |-> E.id, code |-> E.code, hasPrimal |-> E.hasPrimal, hasDual |-> E.hasDual, hasObj |-> E.hasObj, abort |-> E.abort]
          /\ seen' = {}
 TClassify ==
   /\ E.e = "Classify" /\ Step /\ UNCHANGED cur /\ seen' = seen \cup {"Classify"}
@@ -38,20 +40,20 @@ TSol ==
          wrong == {n \in {"present", "code", "obj", "nprimal", "ndual"} :
                      CASE n = "present" -> ~E.present
                        [] n = "code"    -> E.present /\ E.code # c
-                       [] n = "obj"     -> E.present /\ E.objShown \notin ObjShownAllowed(c, cur.hasObj)
-                       [] n = "nprimal" -> E.present /\ E.nprimal # (IF cur.hasPrimal THEN E.nvars ELSE 0)
-                       [] n = "ndual"   -> E.present /\ E.ndual # (IF cur.hasDual THEN E.ncons ELSE 0)}
+                       [] n = "obj"     -> E.present /\ E.objShown \notin (IF cur.abort THEN {FALSE} ELSE ObjShownAllowed(c, cur.hasObj))
+                       [] n = "nprimal" -> E.present /\ ~cur.abort /\ E.nprimal # (IF cur.hasPrimal THEN E.nvars ELSE 0)
+                       [] n = "ndual"   -> E.present /\ ~cur.abort /\ E.ndual # (IF cur.hasDual THEN E.ncons ELSE 0)}
      IN wrong = {} \/ Bad([k |-> "sol", wrong |-> wrong])
 TExit ==
   /\ E.e = "Exit" /\ Step /\ UNCHANGED <<cur, seen>>
   /\ LET c == cur.code
          wrong == {n \in {"rc", "classify", "sol", "iis", "ray", "dray"} :
-                     CASE n = "rc"       -> E.rc # 0
-                       [] n = "classify" -> "Classify" \notin seen
+                     CASE n = "rc"       -> ~cur.abort /\ E.rc # 0
+                       [] n = "classify" -> ~cur.abort /\ "Classify" \notin seen
                        [] n = "sol"      -> "Sol" \notin seen
-                       [] n = "iis"      -> ("ComputeIIS" \in seen) # WantsIIS(c)
-                       [] n = "ray"      -> ("Ray" \in seen) # WantsRay(c)
-                       [] n = "dray"     -> ("DRay" \in seen) # WantsDRay(c)}
+                       [] n = "iis"      -> ~cur.abort /\ ("ComputeIIS" \in seen) # WantsIIS(c)
+                       [] n = "ray"      -> ~cur.abort /\ ("Ray" \in seen) # WantsRay(c)
+                       [] n = "dray"     -> ~cur.abort /\ ("DRay" \in seen) # WantsDRay(c)}
      IN wrong = {} \/ Bad([k |-> "exit", wrong |-> wrong])
 \* -! table: every documented range appears with its bounds
 TTable ==
